@@ -259,7 +259,7 @@ theorem C19_array_ok_iff (g : NodeGrammar) (uni : Uni) (fuel : Nat) (inh : Bool)
     (i : Inp) (m : M) (i' : Inp) (m' : M) (v : Val) :
     parse g uni (fuel+1) inh (.array k x) i m = .ok i' m' v ↔
       ∃ vs, v = .mk .array vs ∧ vs.length = k ∧ ArrayChain (parse g uni fuel inh x) i m i' m' vs := by
-  simp only [parse]
+  simp only [parse, arrayTryInto_arrayLoop]
   have key := arrayLoop_ok_iff (parse g uni fuel inh x) k i m []
   cases hr : arrayLoop (parse g uni fuel inh x) k i m [] with
   | oof =>
@@ -296,7 +296,7 @@ theorem C19_array_fail_iff (g : NodeGrammar) (uni : Uni) (fuel : Nat) (inh : Boo
     parse g uni (fuel+1) inh (.array k x) i m = .fail m' ↔
       ∃ vs i1 m1, vs.length < k ∧ ArrayChain (parse g uni fuel inh x) i m i1 m1 vs ∧
         parse g uni fuel inh x i1 m1 = .fail m' := by
-  simp only [parse]
+  simp only [parse, arrayTryInto_arrayLoop]
   rw [← arrayLoop_fail_iff (parse g uni fuel inh x) k i m [] m']
   cases arrayLoop (parse g uni fuel inh x) k i m [] <;> simp
 
